@@ -500,3 +500,6 @@ contract("specs.ber:lemma_integer_roundtrip",
 contract("specs.ber:lemma_boolean_roundtrip",
          requires=["tlv_of(w, tag_class, constructed, number, seq1(255 if value else 0))"],
          ensures=["len(content_of(cat(w, rest))) == 1", "(content_of(cat(w, rest))[0] != 0) == value", "rest_of(cat(w, rest)) == rest"])
+
+contract("specs.ber:lemma_b128end_bounds", requires=["0 <= i"],
+         ensures=["i <= b128end(s, i)", "b128end(s, i) <= (len(s) if len(s) >= i else i)"], decreases="len(s) - i if len(s) >= i else 0")
